@@ -46,7 +46,5 @@ Proof.
   - destruct x; simpl; rewrite ?IH; reflexivity.
   - rewrite xreg_ops_app, xreg_ops_map, IH. reflexivity.
 Qed.
-Theorem C02_conn_timed_replay_registry :
-  forall evs, xreg_ops (flat_x evs) = flat (tops_of evs).
+Lemma flat_x_ops : forall evs, xreg_ops (flat_x evs) = flat (tops_of evs).
 Proof. intro evs. apply flat_x_from_ops. Qed.
-Print Assumptions C02_conn_timed_replay_registry.
